@@ -143,7 +143,14 @@ func runRandomHist(em *vEmitter, r *vRng, idx int, opt vHistOpts) {
 			if len(tail) == 0 && r.intn(4) == 0 {
 				eol = ""
 			}
-			h.plant(u, i == 0 || r.intn(4) == 0, p, int64(1500000000+r.intn(100000000)), r.bytes(saltLen), pw, eol, tail)
+			pts := int64(1500000000 + r.intn(100000000))
+			switch r.intn(8) {
+			case 0: // a record dated in the future (clock stepped back, file from a machine whose clock is ahead)
+				pts = time.Now().Unix() + int64(3600+r.intn(90*86400))
+			case 1:
+				pts = []int64{0, -1, 1, 9223372036854775807, 253402300800}[r.intn(5)]
+			}
+			h.plant(u, i == 0 || r.intn(4) == 0, p, pts, r.bytes(saltLen), pw, eol, tail)
 			known = append(known, pw)
 			cur[u] = pw
 		}
